@@ -355,6 +355,16 @@ impl Scenario for Fc {
                     11..=25 => "11-25",
                     _ => "26+",
                 }));
+                // with a dangling gate reference (precondition violated) the outcome — panic or
+                // a cycle found first — depends on the traversal order; the oracle above counts it
+                if !succs(s).1 {
+                    if let Outcome::Panic(m) = &out {
+                        if render(&out) == "panic other" {
+                            ctx.fail("findcycle-unexpected-panic", &format!("{}: {m}", show_src(s)));
+                        }
+                    }
+                    return "precondition-violated".into();
+                }
                 render(&out)
             }
             Some("circuit") => match parse_circuit(line) {
